@@ -19,6 +19,13 @@ UNIT = dict(
              free=["self", "applies_in_str", "applies_in"], rules=dict(pre_subst=[("self.", "vx_self."), ("applies_in_str.clone()", "applies_in_str")])),
         dict(id="add_globs_new_node", kind="block", src=F, within="add_globs", stmts_from="if self.ignores.get(&applies_in_str).is_none()", stmts_to="let Some(Ignore",
              free=["self", "applies_in_str", "applies_in"], rules=dict(pre_subst=[("self.", "vx_self."), ("applies_in_str.clone()", "applies_in_str")])),
+        dict(id="new_file_body", kind="block", src=F, within="new", after="for (file, content) in files_contents.into_iter().flatten()",
+             free=["file", "content", "origin", "ignores_trie", "total_num_ignores", "total_num_whitelists"],
+             rules=dict(continue_returns="Ok(())", for_desugar=[0], question=True, question_from="vx_from_glob", option_unfold_and_then=True, option_unfold_unwrap_or_else=True,
+                        pre_subst=[("node.builder.clone()", "node.builder"), ("applies_in.clone().clone()", "applies_in"),
+                                   (".map_err(|err| Error::Glob {\n\t\t\t\t\t\tfile: Some(file.path.clone()),\n\t\t\t\t\t\terr,\n\t\t\t\t\t})", ""),
+                                   (".map_err(|err| Error::Glob { file: None, err })", ""),
+                                   ("total_num_ignores += compiled_builder.num_ignores();", ""), ("total_num_whitelists += compiled_builder.num_whitelists();", "")])),
         dict(id="IgnoreFilter::recompile", kind="fn", src=F, impl="impl IgnoreFilter", name="recompile",
              rules=dict(question=True, question_from="vx_from_glob", pre_subst=[(".map_err(|err| Error::Glob {\n\t\t\tfile: Some(file.path.clone()),\n\t\t\terr,\n\t\t})", "")])),
     ],
